@@ -294,6 +294,35 @@ func (*c06) Corpus() []any {
 			Wide:     &c06Wide{CRDs: true, Notes: true, Subchart: true},
 			Template: &c06Template{Validate: v, Args: []string{"--create-namespace", "--atomic", "--take-ownership"}}})
 	}
+	// helm template x every --dry-run value (and none) x --validate on/off x two charts, plus a few
+	// other flags (seeded defect C06-5: template stayed a dry run only through the option string,
+	// so --dry-run=none / =false performed a real install)
+	tplChart := func() *eng.Op {
+		tp := c06Mk("install", 7, eng.Flags{DryRun: true}, "a", "c")
+		tp.Hooks = c06AllEventHooks()
+		return tp
+	}
+	for _, dr := range []string{"", "--dry-run=none", "--dry-run=false", "--dry-run=client", "--dry-run=server", "--dry-run=true"} {
+		for _, v := range []bool{false, true} {
+			for _, wide := range []*c06Wide{{}, {CRDs: true, Notes: true, Subchart: true}} {
+				var args []string
+				if dr != "" {
+					args = append(args, dr)
+				}
+				out = append(out, c06Case{Backend: "secret", Shape: "empty", Op: tplChart(), Wide: wide,
+					Template: &c06Template{Validate: v, Args: args}})
+			}
+		}
+	}
+	for _, extra := range [][]string{{"--is-upgrade", "--dry-run=none"}, {"--skip-tests", "--dry-run=false", "--create-namespace"},
+		{"--no-hooks", "--dry-run=none", "--atomic"}, {"--replace", "--dry-run=false", "--skip-crds"}} {
+		for _, v := range []bool{false, true} {
+			out = append(out, c06Case{Backend: "secret", Setup: setup(), Shape: "deployed3", Op: tplChart(), Wide: &c06Wide{CRDs: true},
+				Template: &c06Template{Validate: v, Args: extra}})
+		}
+	}
+	out = append(out, c06Case{Backend: "secret", Shape: "empty", Op: tplChart(), Wide: &c06Wide{CRDs: true},
+		Template: &c06Template{Args: []string{"--include-crds", "--dry-run=none"}}})
 	return out
 }
 
